@@ -382,6 +382,7 @@ struct ViewCfg
 struct InstrCfg
 {
   std::string name;
+  std::string unit;  // part of the instrument's identity
   int kind = 0;
   std::vector<ViewCfg> views;
 };
@@ -480,9 +481,19 @@ void make_world(vh::Case &c, World &w)
     {
       const InstrCfg &prev = w.instrs.back();
       in.name              = prev.name;
-      in.kind = prev.kind == kCtrLong ? kCtrDouble : prev.kind == kCtrDouble ? kCtrLong : prev.kind == kUdLong ? kUdDouble : kUdLong;
-      nviews  = 0;
-      c.tag("same-name-other-value-type");
+      if (rd.coin())
+      {
+        in.kind = prev.kind == kCtrLong ? kCtrDouble : prev.kind == kCtrDouble ? kCtrLong : prev.kind == kUdLong ? kUdDouble : kUdLong;
+        c.tag("same-name-other-value-type");
+      }
+      else
+      {
+        // same name, kind and value type, another unit: still a different instrument
+        in.kind = prev.kind;
+        in.unit = "ms";
+        c.tag("same-name-other-unit");
+      }
+      nviews = 0;
     }
     if (nviews == 2 && vh::excluded("F8"))
     {
@@ -518,7 +529,7 @@ void make_world(vh::Case &c, World &w)
                        vc.agg_sum ? sdkm::AggregationType::kSum : sdkm::AggregationType::kDefault, nullptr,
                        std::move(proc))));
     }
-    w.cfgtxt += "instrument " + in.name + ": " + kind_name(in.kind);
+    w.cfgtxt += "instrument " + in.name + (in.unit.empty() ? "" : "[" + in.unit + "]") + ": " + kind_name(in.kind);
     for (auto &vc : in.views)
       w.cfgtxt += " view{as " + vc.stream_name + " filter=" + std::to_string(vc.filter) +
                   (vc.agg_sum ? " sum" : " default") + "}";
@@ -565,16 +576,16 @@ std::unique_ptr<Handle> sdk_create(const World &w, int m, int i)
   switch (in.kind)
   {
     case kCtrLong:
-      h->cl = meter.CreateUInt64Counter(in.name, "", "");
+      h->cl = meter.CreateUInt64Counter(in.name, "", in.unit);
       break;
     case kCtrDouble:
-      h->cd = meter.CreateDoubleCounter(in.name, "", "");
+      h->cd = meter.CreateDoubleCounter(in.name, "", in.unit);
       break;
     case kUdLong:
-      h->ul = meter.CreateInt64UpDownCounter(in.name, "", "");
+      h->ul = meter.CreateInt64UpDownCounter(in.name, "", in.unit);
       break;
     default:
-      h->ud = meter.CreateDoubleUpDownCounter(in.name, "", "");
+      h->ud = meter.CreateDoubleUpDownCounter(in.name, "", in.unit);
       break;
   }
   return h;
@@ -600,7 +611,7 @@ Handle *create_handle(vh::Case &c, World &w, int m, int i)
       StreamM s;
       // the value type is part of the stream key: two instruments of one meter may share a name and
       // differ in value type only (they are different instruments, each with its own stream)
-      s.key    = meter_name(m) + "/" + vc.stream_name + (is_double(in.kind) ? "#d" : "#l");
+      s.key    = meter_name(m) + "/" + vc.stream_name + (is_double(in.kind) ? "#d" : "#l") + in.unit;
       s.instr  = i;
       s.filter = vc.filter;
       w.by_key[s.key] = w.streams.size();
@@ -667,7 +678,8 @@ std::vector<Got> run_collect(sdkm::MetricReader &reader, bool *ok, std::string *
       }
       for (auto &md : sm.metric_data_)
         got.push_back(Got{sm.scope_->GetName() + "/" + md.instrument_descriptor.name_ +
-                              (md.instrument_descriptor.value_type_ == sdkm::InstrumentValueType::kDouble ? "#d" : "#l"),
+                              (md.instrument_descriptor.value_type_ == sdkm::InstrumentValueType::kDouble ? "#d" : "#l") +
+                              md.instrument_descriptor.unit_,
                           md});
     }
     return true;
